@@ -19,9 +19,9 @@ CLASSES = {
 
 TIERS = {
     "quick":    {"MaxBoxes": 3, "MaxWidth": 2, "states": 320, "sim_num": 150, "sim_depth": 10,
-                 "sim_MaxBoxes": 5, "sim_MaxWidth": 4},
+                 "sim_MaxBoxes": 5, "sim_MaxWidth": 4, "spiral_cups": 4, "spiral_walks": 24, "spiral_depth": 12},
     "thorough": {"MaxBoxes": 3, "MaxWidth": 3, "states": 12000, "sim_num": 4000, "sim_depth": 14,
-                 "sim_MaxBoxes": 6, "sim_MaxWidth": 5},
+                 "sim_MaxBoxes": 6, "sim_MaxWidth": 5, "spiral_cups": 5, "spiral_walks": 300, "spiral_depth": 25},
 }
 
 CANARY_OPS = {"C01": None, "C02": None, "C05": {"interchange"}, "C06": {"normal_form"}}
@@ -70,6 +70,24 @@ def simulate(cls, work, cfgt, seed):
                        "expect": [s["d"] for _, s in steps[1:]]})
         os.remove(path)
     return chains, res
+
+
+def spiral_walks(work, max_cups, num, depth, seed):
+    """TLC behaviours of MC_Spiral: random walks by admissible interchanges inside the class of a spiral;
+    the exhaustive run checks canonicity of the normal form on the whole class in the model."""
+    model = core.run_model("MC_Spiral", work, constants={"MaxCups": max_cups},
+                           invariants=["InvWellTyped", "InvConnected", "InvCanonical"], timeout=1500)
+    simdir = os.path.join(work, "simsp")
+    os.makedirs(simdir, exist_ok=True)
+    core.run_model("MC_Spiral", work, constants={"MaxCups": max_cups}, workers=1,
+                   simulate="file=%s/tr,num=%d" % (simdir, num), depth=depth, seed=seed, tag="_sim")
+    walks = []
+    for path in sorted(glob.glob(os.path.join(simdir, "tr_*"))):
+        steps = tlaval.read_simulate(path)
+        if steps:
+            walks.append({"d": steps[0][1]["d"], "walk": [s["d"] for _, s in steps[1:]]})
+        os.remove(path)
+    return walks, model
 
 
 def filter_ops(files, ops, out):
@@ -130,11 +148,18 @@ def canary(trace_module, judge, trace_file, verdicts, work, ops):
     raise core.Machinery("no observation available for the canary")
 
 
-def run(prop, judge, tier, seed, t0, cls="monoidal", invariants=(), drift=False, extra_hook=None):
+def run(prop, judge, tier, seed, t0, cls="monoidal", invariants=(), drift=False, extra_hook=None,
+        families=False):
     cfgt = TIERS[tier]
     ops = OPS[prop]
     A = get_adapter(cls)
     mc, trace_module = CLASSES[cls]["mc"], CLASSES[cls]["trace"]
+    tm = {}
+    _t = [time.time()]
+
+    def lap(name):
+        tm[name] = round(time.time() - _t[0], 1)
+        _t[0] = time.time()
     with core.workdir(prop) as work:
         # leg 1: exhaustive model checking, states dumped
         model = core.run_model(mc, work, constants={"MaxBoxes": cfgt["MaxBoxes"], "MaxWidth": cfgt["MaxWidth"]},
@@ -147,10 +172,21 @@ def run(prop, judge, tier, seed, t0, cls="monoidal", invariants=(), drift=False,
         rnd = core.rng(seed, prop)
         if len(states) > cfgt["states"]:
             states = rnd.sample(states, cfgt["states"])
+        lap("model")
         chains, simres = simulate(cls, work, cfgt, seed)
+        lap("simulate")
         # leg 2: replay on the real library
         files, hooks, stats = machine.replay(A, lib, states, work, seed, tag="states")
         files2, hooks2, stats2 = machine.replay(A, lib, chains, work, seed, tag="chains")
+        fam_info = None
+        if families:
+            walks, spmodel = spiral_walks(work, cfgt["spiral_cups"], cfgt["spiral_walks"], cfgt["spiral_depth"], seed)
+            files3, hooks3, stats3 = machine.replay(A, lib, walks, work, seed, tag="families")
+            files2, hooks2 = files2 + files3, hooks2 + hooks3
+            fam_info = {"module": "MC_Spiral", "MaxCups": cfgt["spiral_cups"], "states": spmodel["distinct"],
+                        "transitions": spmodel["generated"], "walks_replayed": len(walks),
+                        "walk_depth": cfgt["spiral_depth"], "calls": stats3["calls"]}
+        lap("replay")
         trace_file = os.path.join(work, "trace.ndjson")
         n_hist, n_calls = filter_ops(files + files2, ops, trace_file)
         # leg 3: trace validation
@@ -172,11 +208,13 @@ def run(prop, judge, tier, seed, t0, cls="monoidal", invariants=(), drift=False,
                                      "obs": {"cls": cls, "d": t["d"], "call": c,
                                              "pre": t["calls"][c["p"] - 1]["res"] if c["p"] else None}})
             accepted_hist += 0 if bad else 1
+        lap("validate")
         can = canary(trace_module, judge, trace_file, verdicts, work, CANARY_OPS[prop] or ops)
         drift_count = None
         if drift:
             dv = core.validate(trace_module, "JDrift", trace_file, work)
             drift_count = dict(Counter(x for v in dv["verdicts"] for x in v if x != "ok"))
+        lap("canary+drift")
         op_count = Counter(c["op"] for t in rows for c in t["calls"])
         exc_count = Counter(c["exc"] for t in rows for c in t["calls"] if c["exc"])
         samples = []
@@ -198,10 +236,14 @@ def run(prop, judge, tier, seed, t0, cls="monoidal", invariants=(), drift=False,
                        "refusals_by_exception": dict(exc_count),
                        "diagrams_constructed": stats["constructed"] + stats2["constructed"]},
             "verdicts_by_clause": dict(clause_count),
-            "canary": can,
+            "canary": can, "timings_s": tm,
         }
         if drift_count is not None:
             coverage["model_drift"] = drift_count
+        if fam_info:
+            coverage["spiral_family"] = fam_info
+            coverage["states"] += fam_info["states"]
+            coverage["transitions"] += fam_info["transitions"]
         hook_files = hooks + hooks2
         if extra_hook:
             extra_hook(work, hook_files, coverage, rejected, tier)
